@@ -105,7 +105,7 @@ func legalSection(g *RNG, name string, fields []optField) string {
 	var sb strings.Builder
 	fmt.Fprintf(&sb, "[%s]\n", name)
 	for _, f := range fields {
-		if g.Chance(0.8) {
+		if g.Chance(0.65) {
 			fmt.Fprintf(&sb, "%s = %s\n", f.Name, legalValue(g, f))
 		}
 	}
@@ -202,7 +202,7 @@ func genCfg(g *RNG, meta *MetaTable, class string) CfgSpec {
 		}
 		sort.Strings(targets)
 		text := sb.String()
-		if g.Chance(0.3) {
+		if g.Chance(0.55) {
 			// option-like keys at the top level belong to no lint
 			text = pick(g, []string{"Rounds = 0\n", "Skip = true\nCrossCert = true\n", "SubscriberCRL = false\n", "flag = true\nnum = 99\ntext = \"top-level\"\n", "num = 41\n"}) + text
 		}
